@@ -565,12 +565,27 @@ def eval_rat(r: Rat, point: dict) -> float:
     return _eval_poly(r.n, val) / _eval_poly(r.d, val)
 
 
-def witness(a: Rat, b: Rat, tries: int = 6) -> Optional[dict]:
+def _atom_names(atoms, seen=None) -> set:
+    """variable names of a set of atoms, including those inside the radicands of square-root atoms"""
+    out: set = set()
+    seen = seen if seen is not None else set()
+    for k in atoms:
+        if k in seen:
+            continue
+        seen.add(k)
+        if k[0] in ("v", "sin", "cos"):
+            out.add(k[1])
+        elif k[0] == "sqrt" and k in SQRT_RADICANDS:
+            out |= _atom_names(SQRT_RADICANDS[k].atoms(), seen)
+    return out
+
+
+def witness(a: Rat, b: Rat, tries: int = 12) -> Optional[dict]:
     """A concrete point at which the two normal forms take different values, or None when they agree at every tried point."""
     import random
     rng = random.Random(20240607)
     for i in range(tries):
-        names = sorted({k[1] for r in (a, b) for p in (r.n, r.d) for k in p.atoms() if k[0] in ("v", "sin", "cos")})
+        names = sorted(_atom_names([k for r in (a, b) for p in (r.n, r.d) for k in p.atoms()]))
         point = {n: rng.uniform(0.35, 1.25) for n in names}
         point["__salt__"] = str(i)
         try:
